@@ -239,6 +239,23 @@ Theorem C05_load_is_read : forall numtab root v,
 Proof. exact load_doc_is_read. Qed.
 Print Assumptions C05_load_is_read.
 
+(* the same under a guard that is a computation ([geom_fits]: the sources Geometry.load ends with equal the
+   sources FloatSource.load produced); Check/C05.v evaluates it on every case *)
+Theorem C05_load_is_read_guard : forall numtab root v,
+  forallb (geom_fits numtab) (geometry_elems root) = true ->
+  load_doc numtab root = Ok v -> read_doc numtab root = Ok v.
+Proof. exact load_doc_is_read_guard. Qed.
+Print Assumptions C05_load_is_read_guard.
+
+(* when checkSource renames: one call rewrites exactly the sources it is applied to (same uid) to the expected
+   component names; the source list is unchanged iff those sources carried the expected names already *)
+Theorem C05_checksource_renaming : forall srcs u comps mx srcs',
+  apply_check srcs (u, comps, mx) = Ok srcs' ->
+  srcs' = map (renamed u (map nm comps)) srcs /\
+  (srcs' = srcs <-> forall s, In s srcs -> s_uid s = u -> s_comps s = map nm comps).
+Proof. exact apply_check_spec. Qed.
+Print Assumptions C05_checksource_renaming.
+
 (* ---- non-vacuity *)
 
 (* a primitive whose inputs share and skip offsets: VERTEX (through <vertices>, which also carries a
